@@ -78,6 +78,83 @@ for _u in _m.UNITS:
         # order-free accounting of an arbitrary handle value: decides C06 for points of <= 5 handles
         UNITS.append(dict(_copy.deepcopy(_u), defines=list(_u['defines']) + ['CV_NO_ORDER 1']))
 
+# ---- parallel resumption (src/cocls/resume.h): cocls::parallel<Awt> (co_await cocls::parallel(fut): the awaiting coroutine is resumed on a
+# brand-new detached thread) and cocls::parallel_resume(suspend_point<T>&&) (the point's coroutines are resumed on a new thread).
+# std::thread is an external primitive: boundary + recording model lib/model_thread_spawn.c (runs the closure exactly once).  Driver c06_parallel.cpp.
+import re as _re
+_PAR = 'cocls::parallel<cocls::co_awaiter<cocls::future<int> > >'
+_PARE = _re.escape(_PAR)
+PAR_PR_RX = r'^' + _PARE + r'::perform_resume\(cocls::awaiter\*, void\*\)$'
+PAR_PR_LAM_RX = r'^' + _PARE + r'::perform_resume\(cocls::awaiter\*, void\*\)::\{lambda\(\)#1\}::operator\(\)\(\) const$'
+PAR_PR_THR_RX = r'^std::thread::thread<' + _PARE + r'::perform_resume\(cocls::awaiter\*, void\*\)::\{lambda\(\)#1\}, , void>\('
+PAR_AS_RX = r'^' + _PARE + r'::await_suspend\(std::__n4861::coroutine_handle<void>\)$'
+PAR_AR_RX = r'^' + _PARE + r'::await_ready\(\)$'
+PAR_ARES_RX = r'^' + _PARE + r'::await_resume\(\)$'
+PAR_CTOR_RX = r'^' + _PARE + r'::parallel<cocls::future<int>&>\(cocls::future<int>&\)$'
+COAW = r'cocls::co_awaiter<cocls::future<int> >'
+COAW_AS_RX = r'^' + _re.escape(COAW) + r'::await_suspend\(cocls::suspend_point<void> \(\*\)\(cocls::awaiter\*, void\*\)( noexcept)?, void\*\)$'
+COAW_AR_RX = r'^' + _re.escape(COAW) + r'::await_ready\(\)$'
+COAW_ARES_RX = r'^' + _re.escape(COAW) + r'::await_resume\(\)$'
+def _prx(t): return r'cocls::parallel_resume<%s>\(cocls::suspend_point<%s>&&\)' % (t, t)
+def PRES_RX(t): return r'^auto ' + _prx(t) + r'$'
+def PRES_LAM_CALL_RX(t): return r'^' + _prx(t) + r'::\{lambda\(\)#1\}::operator\(\)\(\)$'
+def PRES_LAM_MOVE_RX(t): return r'^' + _prx(t) + r'::\{lambda\(\)#1\}::suspend_point\(\{lambda\(\)#1\}&&\)$'      # the closure's implicit move constructor (demangler prints the capture's type name)
+def PRES_LAM_DTOR_RX(t): return r'^' + _prx(t) + r'::\{lambda\(\)#1\}::~suspend_point\(\)$'
+def PRES_THR_RX(t): return r'^std::thread::thread<' + _prx(t) + r'::\{lambda\(\)#1\}, , void>\('
+THR_BOUNDARY = [r'^std::thread::']
+PAR_TYPES = dict(TYPES, THR='std::thread', AWT='cocls::awaiter', PAR=_PAR, COAW='cocls::co_awaiter<cocls::future<int> >')
+PAR_LIBS = ['rt_core.c', 'rt_atomic_seq.c', 'model_coro.c', 'model_thread_spawn.c']
+PAR_SPEC = ['C06/sp_spec.h', 'C06/par_spec.h', 'C06/h_par.c']
+RESUME_BOUNDARY = [r'^std::__n4861::coroutine_handle<void>::resume\(\) const$']
+def par_unit(name, alias, rx, **kw):
+    d = dict(name=name, driver='c06_parallel.cpp', roots=[rx], names={alias: rx}, types=dict(PAR_TYPES), globals={}, boundary=THR_BOUNDARY + RESUME_BOUNDARY,
+             lib=PAR_LIBS, spec=PAR_SPEC, harness='h_' + name, enforce=alias, defines=['DQCH int'], under_contract=[rx.strip('^$').replace('\\', '')])
+    for k in ('names', 'types', 'globals'):
+        if k in kw: d[k].update(kw.pop(k))
+    for k in ('roots', 'boundary', 'defines'):
+        if k in kw:
+            if k == 'roots': d['under_contract'] = d['under_contract'] + [x.strip('^$').replace('\\', '') for x in kw[k]]    # closure bodies / closure special members run by the thread model
+            d[k] = d[k] + list(kw.pop(k))
+    d.update(kw)
+    return d
+_AWT_PERM = {'cocls::awaiter._handle_addr': 'PAR_AWT_ACCESS'}
+_SPV_CLEAR_RX = r'^cocls::suspend_point<void>::clear\(\)$'
+_SPV_SN_RX = r'^cocls::suspend_point<void>::suspend_now\(\)$'
+def _pres_names(t):
+    return {'pres_lam_call': PRES_LAM_CALL_RX(t), 'pres_lam_move': PRES_LAM_MOVE_RX(t), 'pres_lam_dtor': PRES_LAM_DTOR_RX(t), 'thr_ctor_pres': PRES_THR_RX(t)}
+def _pres_roots(t):
+    return [PRES_LAM_CALL_RX(t), PRES_LAM_MOVE_RX(t), PRES_LAM_DTOR_RX(t)]
+def pres_modular(name, alias, t, harness):
+    return par_unit(name, alias, PRES_RX(t), roots=_pres_roots(t), names=dict(_pres_names(t), pres_sp_clear=_SPV_CLEAR_RX, pres_sp_suspend_now=_SPV_SN_RX),
+                    ptypes={'CLOS_PRES': PRES_THR_RX(t) + '#1'}, boundary=[_SPV_CLEAR_RX, _SPV_SN_RX], harness=harness, cbmc_flags=['--sat-solver', 'cadical'],
+                    note='clear()/suspend_now() are abstract callees here (units clear, dtor, suspend_now verify them); composition is by hand')
+def pres_e2e(name, loop, defines, **kw):
+    t = 'void'
+    d = par_unit(name, 'parallel_resume_v', PRES_RX(t), roots=_pres_roots(t),
+                 names=dict(_pres_names(t), qi_flush=_m.FLUSH_RX, sp_suspend_now=_SPV_SN_RX, sp_suspend_now_lambda=_m.SN_LAMBDA_RX),
+                 types=dict(_m.TYPES), globals={k: v for k, v in _m.GLOBALS.items() if k != 'NOOP_FRAME'}, ptypes={'CLOS_PRES': PRES_THR_RX(t) + '#1'},
+                 boundary=[r'^std::deque<std::__n4861::coroutine_handle<void>', _m.FLUSH_RX], replace=['qi_flush'], harness='h_parallel_resume', loop_contracts=loop,
+                 spec=['C06/sp_spec.h', 'C05/q_spec.h', 'C05/sp_q_spec.h', 'C06/par_spec.h', 'C06/h_par.c'], cbmc_flags=['--sat-solver', 'cadical'])
+    d['defines'] = ['CV_QUEUE_INSTANCE_PTR QINST', 'CV_THREAD_TLS_HOOKS 1', 'CV_PRES_E2E 1'] + list(defines)
+    d.update(kw)
+    return d
+UNITS += [
+    par_unit('par_perform_resume', 'par_perform_resume', PAR_PR_RX, roots=[PAR_PR_LAM_RX], names={'par_pr_lambda': PAR_PR_LAM_RX, 'thr_ctor_pr': PAR_PR_THR_RX},
+             ptypes={'CLOS_PR': PAR_PR_THR_RX + '#1'}, perms=_AWT_PERM, defines=['CV_COUNT_X 1']),
+    # the wrapped awaiter's members are abstract callees (names_opt: a change that stops calling them must fail a postcondition, not the extraction)
+    par_unit('par_await_suspend', 'par_await_suspend', PAR_AS_RX, names={'par_perform_resume_fn': PAR_PR_RX}, names_opt={'coaw_await_suspend': COAW_AS_RX},
+             boundary=[COAW_AS_RX, PAR_PR_RX], perms=_AWT_PERM),
+    par_unit('par_await_ready', 'par_await_ready', PAR_AR_RX, names_opt={'coaw_await_ready': COAW_AR_RX}, boundary=[COAW_AR_RX]),
+    par_unit('par_await_resume', 'par_await_resume', PAR_ARES_RX, names_opt={'coaw_await_resume': COAW_ARES_RX}, boundary=[COAW_ARES_RX]),
+    par_unit('par_ctor', 'par_ctor', PAR_CTOR_RX, types={'FUT': 'cocls::future<int>'}),
+    pres_modular('parallel_resume', 'parallel_resume_v', 'void', 'h_parallel_resume'),
+    pres_modular('parallel_resume_typed', 'parallel_resume_b', 'bool', 'h_parallel_resume_typed'),
+    # unbounded, but position-wise (k-th direct resumption = k-th handle): C06 does not demand an order, so a failure here is not a violation of C06
+    pres_e2e('parallel_resume_e2e', True, [], on_fail='undecided', on_fail_note='position-wise contract (resume order); C06 itself is decided order-free by parallel_resume_e2e_bounded up to 5 handles and by the modular unit parallel_resume'),
+    pres_e2e('parallel_resume_e2e_bounded', False, ['CV_BOUNDED_FALLBACK 1', 'CV_BOUND_N 5', 'CV_COUNT_X 1', 'CV_NO_ORDER 1'], unwind=24, kind='bounded', timeout=900, object_bits=9,
+             bounded='suspend points of <= 5 handles (inline and heap representation); the loops of suspend_now run on the spawned thread are unwound instead of using loop contracts'),
+]
+
 META = dict(
     level='proof',
     level_text='Every loop-free member of suspend_point<void> and the typed variants is verified against a position-wise contract (ghost index) for every count < 2^28, every capacity and both representations, including the inline->heap transition and every doubling inside add(); allocation balance is a postcondition. The merging loop of operator<< is NOT proved: it is checked by bounded execution of the real body on concrete shapes up to the 40 handles of the property statement and reported separately as bounded. suspend_now/clear/destructor/await_suspend(coroutine mode) are proved against contracts over the abstract ready queue (shared with C05): every handle is queued or resumed exactly once, in order, the block is released once, an emptied/moved-from suspend point resumes nothing.',
@@ -86,3 +163,10 @@ META = dict(
     trusted_base=['assumed contract: std::copy<void**> copies element-wise (specs/C06/sp_spec.h)'],
     assumptions=['count < 2^28 (the count word holds count<<1 in an unsigned int)', 'operator<< merge loop: bounded(40) only - see coverage.bounded'],
     explanation='see level_text')
+# ---- parallel resumption (resume.h): additions to the description above
+META['level_text'] += (' Parallel resumption (src/cocls/resume.h, driver c06_parallel.cpp): parallel<co_awaiter<future<int>>>::perform_resume is verified against "exactly one brand-new detached thread is created, its closure gets the awaiting coroutine, that coroutine is resumed exactly once (order-free count of an arbitrary handle value), on the new thread and not on the resumer\'s stack, the suspend point given back to the resumer is empty, the awaiter is not touched once the thread exists"; parallel::await_suspend / await_ready / await_resume and the constructor are verified as forwarders to the wrapped awaiter (handle stored BEFORE the inner awaiter is subscribed, nothing touched afterwards, perform_resume + this registered as the thing to wake). parallel_resume(suspend_point<T>&&) for T = void and bool: (a) unbounded modular units - the whole content (count word, block, every position) reaches exactly one hand-over to the scheduler (clear()/suspend_now(), abstract callees verified by units clear / dtor / suspend_now), on one new detached thread, the caller\'s point is emptied, the block is neither copied nor leaked nor released twice, the typed value is returned; (b) an unbounded end-to-end unit (parallel_resume_e2e) that runs the real clear() -> suspend_now() -> resume loop (loop contracts of C05/sp_q_spec.h) -> flush_queue (by contract) on the spawned thread with its own thread_local ready queue: the k-th direct resumption is the k-th handle, all of them on the spawned thread, the caller\'s mode and ready queue untouched; (c) its bounded sibling (<= 5 handles, loops unwound, order-free count of an arbitrary handle value).')
+META['level_note'] += (' Parallel resumption: std::thread is a trusted recording model (lib/model_thread_spawn.c): thread creation always succeeds, the closure is moved with the real move constructor of the lambda, its real body and destructor run exactly once, INSIDE the constructor call (earliest schedule); later schedules of the spawned thread are covered only by the lifetime instrumentation (no access to the awaiter after the spawn / after the subscription), not by interleaving. A std::thread constructor that throws (resource exhaustion) is not modelled: in perform_resume (noexcept) that is std::terminate, in parallel_resume the closure destructor resumes the coroutines on the caller. A rewrite of perform_resume that no longer creates a thread from a lambda makes unit par_perform_resume undecided (extraction), not falsely discharged.')
+META['trusted_base'] += ['assumed contract: std::thread(F&&) moves the closure and runs it exactly once on a new thread; detach()/join() need a joinable thread; ~thread of a joinable thread terminates (lib/model_thread_spawn.c)',
+                         'primitive: coroutine_handle<>::resume() logs the handle (lib/model_coro.c) - shared with C05',
+                         'abstract callees of the forwarder units: co_awaiter<future<int>>::await_suspend(resume_fn, void*) / await_ready / await_resume (subject of C02/C03), suspend_point<void>::clear / suspend_now in the modular parallel_resume units (subject of units clear, dtor, suspend_now)']
+META['assumptions'] += ['parallel resumption: thread creation does not fail; the spawned thread is scheduled at the earliest point (inside the constructor); its thread_local ready queue starts empty with no activation installed']
